@@ -40,7 +40,9 @@ func c02Shapes() []cargen.Shape {
 			case 1:
 				b.Entries = [][]cargen.TxShape{{}, {{Accounts: []int{2}, Failed: true}}, {{Accounts: []int{0, 1}, Meta: cargen.PayloadShape{Pad: 700, FrameSize: 256, FanOut: 2}}, {Accounts: []int{1}}}}
 			case 2:
-				b.Entries = [][]cargen.TxShape{{{Accounts: []int{1}, TxPad: 200, Meta: cargen.PayloadShape{Pad: 1500, FrameSize: 300, FanOut: 3, Checksum: "fnv"}}}}
+				b.Entries = [][]cargen.TxShape{{{Accounts: []int{1}, TxPad: 200, Meta: cargen.PayloadShape{Pad: 1500, FrameSize: 300, FanOut: 3, Checksum: "fnv"}},
+					// transaction bytes AND metadata in linked frames (the first data frame still holds the signature)
+					{Accounts: []int{0, 2}, TxPad: 600, Data: cargen.PayloadShape{FrameSize: 128, FanOut: 2}, Meta: cargen.PayloadShape{Pad: 500, FrameSize: 200}}}}
 				b.Rewards = &cargen.PayloadShape{Pad: 400, FrameSize: 128}
 			case 3:
 				b.Entries = [][]cargen.TxShape{{{Accounts: []int{2}, NoMeta: true}}, {{Accounts: []int{0}, Loaded: []int{2}}}}
